@@ -68,40 +68,11 @@ Theorem C02_read_bits_value : forall E W s pos n, RInv E W s pos -> n <= 64 ->
 Proof. exact ReaderProofs.read_bits_value. Qed.
 Print Assumptions C02_read_bits_value.
 
-Theorem C07_bit_pos : forall E W s pos, RInv E W s pos -> ws_idx (br_src s) * W < 2 ^ 64 ->
-  br_bit_pos W s = Ok pos.
-Proof. exact ReaderProofs.bit_pos_ok. Qed.
-Print Assumptions C07_bit_pos.
 
-Theorem C07_set_bit_pos : forall E W s pos p, RInv E W s pos -> p < 2 ^ 64 ->
-  (ws_strict (br_src s) = true -> p <= W * N.of_nat (length (ws_words (br_src s)))) ->
-  exists s', br_set_bit_pos E W p s = Ok s' /\ RInv E W s' p /\
-             ws_words (br_src s') = ws_words (br_src s) /\ ws_strict (br_src s') = ws_strict (br_src s).
-Proof. exact ReaderProofs.set_bit_pos_ok64. Qed.
-Print Assumptions C07_set_bit_pos.
 
-Theorem C07_set_bit_pos_err : forall E W s pos p, RInv E W s pos -> ws_strict (br_src s) = true ->
-  W * N.of_nat (length (ws_words (br_src s))) < p -> br_set_bit_pos E W p s = Err.
-Proof. exact ReaderProofs.set_bit_pos_err. Qed.
-Print Assumptions C07_set_bit_pos_err.
 
-Theorem C07_seek_fresh : forall E W s pos p, RInv E W s pos ->
-  (ws_strict (br_src s) = true -> p <= W * N.of_nat (length (ws_words (br_src s)))) ->
-  exists s', br_set_bit_pos E W p s = Ok s' /\ RInv E W s' p /\
-    rabs E W s' p 0 = rabs E W (br_new (ws_words (br_src s)) (ws_strict (br_src s))) p 0.
-Proof. exact ReaderProofs.seek_fresh_ok. Qed.
-Print Assumptions C07_seek_fresh.
 
-Theorem C09_strict_error_bits : forall E W s pos n, RInv E W s pos -> ws_strict (br_src s) = true ->
-  0 < n -> n <= 64 -> W * N.of_nat (length (ws_words (br_src s))) < pos + n ->
-  br_read_bits E W n s = Err.
-Proof. exact ReaderProofs.strict_error_bits. Qed.
-Print Assumptions C09_strict_error_bits.
 
-Theorem C09_zero_ext_never_fails : forall E W s pos n, RInv E W s pos -> ws_strict (br_src s) = false -> n <= 64 ->
-  exists v s', br_read_bits E W n s = Ok (v, s').
-Proof. exact ReaderProofs.zero_ext_never_fails. Qed.
-Print Assumptions C09_zero_ext_never_fails.
 
 (* the statement of C02_read_unary_sim without a length bound is refuted (source of 2^58 zero words of
    64 bits followed by the word 1: the spec is Ok/Err, the machine's add64 overflows: Fail) *)
